@@ -17,7 +17,7 @@ BUDGET = {"quick": 50, "thorough": 900}
 RULE = (
     "a worker with run_health_check_server=True (seeded address/port/endpoint, 1-3 queues, a stream of jobs) on the in-memory "
     "broker; the server runs on the stdlib asyncio Server class over simulated TCP. Seeded HTTP clients: well-formed GET on the "
-    "endpoint, other paths, other methods, truncated heads, binary, 1 MiB bodies, GETs during the graceful shutdown while an actor still runs (after a consumer failure: still 503), a valid request split across 2-5 segments (equal parts or seeded cut positions, biased to the last five bytes), "
+    "endpoint, other paths, other methods, truncated heads, binary, 1 MiB bodies, the same Worker run a second time (port opens again, 200/404), GETs during the graceful shutdown while an actor still runs (after a consumer failure: still 503), a valid request split across 2-5 segments (equal parts or seeded cut positions, biased to the last five bytes), "
     "1-50 simultaneous connections, connections left idle; a consumer failure (consume() raises) at a seeded call, also while "
     "connections are open; connects before run(), during it and after it returned. Oracle: with H(t) = OK until the first "
     "consumer failure and UNHEALTHY after, a complete single-segment GET on the endpoint arriving at t gets 200/503 per H(t) "
@@ -57,7 +57,7 @@ def gen(rng, broker, tier):
         for _ in range(rng.randint(1, 4)):
             clients.append({"kind": "get", "at_us": rng.randint(3_050_000, 3_900_000), "n": 1, "parts": 2, "cuts": None, "hold_us": 0})
     return {"endpoint": endpoint, "port": rng.choice([8080, 1, 65535, 10101]), "address": rng.choice(["0.0.0.0", "127.0.0.1", "sim-host"]),
-            "clients": clients, "jobs": jobs, "nq": nq, "fail": fail, "run_us": 3_000_000,
+            "clients": clients, "jobs": jobs, "nq": nq, "fail": fail, "run_us": 3_000_000, "rerun": rng.random() < 0.3,
             "knobs": {"step_cost": rng.choice([0, 0, 1, "rand"]),
                       "net": {"lat_lo": 50, "lat_hi": rng.choice([300, 3000]), "frag_p": 0}}}
 
@@ -271,6 +271,31 @@ async def _main(sim, sc, out):
         if e["node"] == "w" and "data_received" not in e["message"]:
             V.append(violation("unhandled-exception", f"C20/mem/unhandled-exception/{e['exc_type']}", first=e))
             break
+    if sc.get("rerun") and not sc.get("fail") and tf is None and raised is None and not V:
+        # the same Worker object is run again (supervisor restart loop): the port opens again and answers
+        n0 = len(answers)
+        t_start2 = sim.clock.us
+        wt2 = sim.loop.spawn("w", w.run())
+        await asyncio.sleep(0.4)
+        if not no_http:
+            await one_request({"kind": "get", "hold_us": 0}, [b"GET " + ep + b" HTTP/1.1\r\nHost: x\r\n\r\n"], "rerun-get")
+            await one_request({"kind": "other-path", "hold_us": 0}, [b"GET /nope-" + ep[1:] + b" HTTP/1.1\r\n\r\n"], "rerun-404")
+        await asyncio.sleep(0.2)
+        sim.loop.deliver_signal("w", signal.SIGINT)
+        try:
+            await asyncio.wait_for(asyncio.shield(wt2), timeout=30)
+        except BaseException as exc:  # noqa: BLE001
+            if isinstance(exc, (kernel.SimAbort, KeyboardInterrupt, SystemExit)):
+                raise
+            V.append(violation("second-run-raised", f"C20/mem/rerun/second-run-raised-{type(exc).__name__}", exc=repr(exc)[:200]))
+        for a in answers[n0:]:
+            want = "200" if a["kind"] == "rerun-get" else "404"
+            if a.get("refused"):
+                V.append(violation("refused-while-running", f"C20/mem/rerun/connection-refused-while-second-run-in-progress/{a['kind']}"))
+            elif a.get("status") != want:
+                V.append(violation("wrong-status", f"C20/mem/rerun/{a['kind']}-answered-{a.get('status')}-expected-{want}", raw=a.get("raw")))
+        probe(out, "worker-run-twice")
+        await asyncio.sleep(0.3)
     out["info"]["outcomes"] = {jid: place_summary(world.inspect(), jid) for jid in jobs}
     out["info"]["runs"] = sorted((s[2], s[3]) for s in state.starts)
     out["info"]["failed_at"] = tf is not None
